@@ -1102,6 +1102,12 @@ expand_manifests(string &expr, bool expand_undefined,
               p++;
             }
             if (p >= expr.size() || expr[p] != '(') {
+              if (expand_undefined) {
+                // This is not an invocation, so the name remains; in an #if
+                // expression a remaining identifier counts as 0.
+                expr = expr.substr(0, q) + "0" + expr.substr(q + ident.size());
+                p = q + 1;
+              }
               continue;
             }
 
